@@ -29,7 +29,7 @@ def takeOf : List Ix → Nat → List (Option Nat)
 def basicNoEll (items : List Ix) : Bool := items.all (fun x => isBasic x && x != Ix.ell)
 
 theorem namesLoop_basic (items : List Ix) : ∀ (st : NamesSt), basicNoEll items = true →
-    (namesLoop items st).take = st.take ++ takeOf items st.count := by
+    (namesLoop items st).take = st.take ++ takeOf items st.count ∧ (namesLoop items st).advPos = st.advPos := by
   induction items with
   | nil => intro st _; simp [namesLoop, takeOf]
   | cons x r ih =>
@@ -37,16 +37,18 @@ theorem namesLoop_basic (items : List Ix) : ∀ (st : NamesSt), basicNoEll items
     simp only [basicNoEll, List.all_cons, Bool.and_eq_true] at h
     have hr : basicNoEll r = true := h.2
     cases x with
-    | none => simp [namesLoop, takeOf, ih _ hr]
-    | int i => simp [namesLoop, takeOf, ih _ hr]
-    | slice a b c => simp [namesLoop, takeOf, ih _ hr]
+    | none => simp only [namesLoop, namesStep]; rw [(ih _ hr).1, (ih _ hr).2]; simp [takeOf]
+    | int i => simp only [namesLoop, namesStep, isNumber, if_true]; rw [(ih _ hr).1, (ih _ hr).2]; simp [takeOf]
+    | slice a b c =>
+      simp only [namesLoop, namesStep, isNumber, advInfo, sepStep, Bool.false_eq_true, if_false]
+      rw [(ih _ hr).1, (ih _ hr).2]; simp [takeOf]
     | ell => simp at h
     | list l => simp [isBasic] at h
     | range a b c => simp [isBasic] at h
     | mask s d => simp [isBasic] at h
     | tensor s d =>
       cases s with
-      | nil => simp [namesLoop, takeOf, ih _ hr]
+      | nil => simp only [namesLoop, namesStep, isNumber, if_true]; rw [(ih _ hr).1, (ih _ hr).2]; simp [takeOf]
       | cons m s => simp [isBasic] at h
 
 theorem lookNames_cons_none (names : Names) (t : List (Option Nat)) :
@@ -211,11 +213,15 @@ theorem namesIdx_basic (names : Names) (bs : Shape) (items : List Ix) (P : List 
       have h0 : bs.length - specified items = 0 := by omega
       have hall : items.all (· != Ix.ell) = true := hn
       simp [convertEllipsis, hall, h0]
-  have hloop := namesLoop_basic (items ++ List.replicate (bs.length - specified items) slAll)
-    { take := [], count := 0, noMore := false } (basicNoEll_append_slAll items _ hb)
-  simp only [List.nil_append] at hloop
+  obtain ⟨hloop, hadv⟩ := namesLoop_basic (items ++ List.replicate (bs.length - specified items) slAll)
+    NamesSt.init (basicNoEll_append_slAll items _ hb)
+  have hfin : namesFinish (namesLoop (items ++ List.replicate (bs.length - specified items) slAll) NamesSt.init)
+      = takeOf (items ++ List.replicate (bs.length - specified items) slAll) 0 := by
+    unfold namesFinish
+    rw [hadv, hloop]
+    rfl
   have htake : namesTake names bs.length items = .ok (pieceNames P names) := by
-    simp only [namesTake, hconv, PyIndex.items, hloop, hlook]
+    simp only [namesTake, hconv, PyIndex.items, hfin, hlook]
   simp only [namesIdx, isBoolean_basic items hb, PyIndex.items, htake, normNames]
   split <;> rfl
 
@@ -224,150 +230,162 @@ end TdVerif.C03
 namespace TdVerif.C03
 open TorchSpec Td
 
-/-- number of items that are not `None` (each advances `count` in `_get_names_idx` by one) -/
-def nonNone (items : List Ix) : Nat := (items.filter (· ≠ Ix.none)).length
+/-- what one iteration does to `count` -/
+def nmConsumed : Ix → Nat
+  | .none => 0
+  | .mask [] _ => 1
+  | .mask s _ => s.length
+  | _ => 1
 
-theorem nonNone_cons_none (r : List Ix) : nonNone (Ix.none :: r) = nonNone r := by simp [nonNone]
+/-- invariants of the loop that make every later lookup `names[i]` legal -/
+structure NmInv (st : NamesSt) : Prop where
+  take_lt : ∀ i, some i ∈ st.take → i < st.count
+  adv_lt : st.advPos.isSome = true → st.advDim < st.count
+  pos_le : ∀ p, st.advPos = some p → p ≤ st.take.length
 
-theorem nonNone_cons (x : Ix) (r : List Ix) (h : x ≠ Ix.none) : nonNone (x :: r) = nonNone r + 1 := by
-  simp [nonNone, h]
+theorem advStep_count (nd c : Nat) (m : Bool) (st : NamesSt) : (advStep nd c m st).count = st.count + c := by
+  unfold advStep; split <;> (try split) <;> rfl
 
-/-- `_get_names_idx` only ever asks for names of dims it has counted -/
-theorem namesLoop_bound (items : List Ix) : ∀ (st : NamesSt),
-    (namesLoop items st).count = st.count + nonNone items ∧
-    ∀ i, some i ∈ (namesLoop items st).take → (some i ∈ st.take ∨ i < st.count + nonNone items) := by
+theorem advStep_inv (nd c : Nat) (m : Bool) (st : NamesSt) (hc : 0 < c) (h : NmInv st) : NmInv (advStep nd c m st) := by
+  obtain ⟨h1, h2, h3⟩ := h
+  unfold advStep
+  cases hp : st.advPos with
+  | none =>
+    simp only [Option.isNone_none, if_true]
+    exact ⟨fun i hi => by have := h1 i hi; simp; omega, fun _ => by simp; omega,
+      fun p hp' => by simp at hp'; subst hp'; simp⟩
+  | some p0 =>
+    have hp0 := h2 (by simp [hp])
+    have hle := h3 p0 hp
+    simp only [Option.isNone_some, Bool.false_eq_true, if_false]
+    split
+    · exact ⟨fun i hi => by have := h1 i hi; simp; omega, fun _ => by simp; omega,
+        fun p hp' => by simp [hp] at hp'; subst hp'; simpa using hle⟩
+    · exact ⟨fun i hi => by have := h1 i hi; simp; omega, fun _ => by simp; omega,
+        fun p hp' => by simp [hp] at hp'; subst hp'; simpa using hle⟩
+
+theorem sepStep_inv (st : NamesSt) (h : NmInv st) : NmInv (sepStep st) := by
+  obtain ⟨h1, h2, h3⟩ := h
+  refine ⟨?_, fun ha => Nat.lt_succ_of_lt (h2 ha), ?_⟩
+  · intro i hi
+    simp [sepStep] at hi
+    rcases hi with hi | hi
+    · exact Nat.lt_succ_of_lt (h1 i hi)
+    · subst hi; exact Nat.lt_succ_self _
+  · intro p hp; have := h3 p hp; simp [sepStep]; omega
+
+theorem namesStep_count (x : Ix) (st : NamesSt) : (namesStep x st).count = st.count + nmConsumed x := by
+  cases x with
+  | mask s d => cases s <;> simp [namesStep, isNumber, advInfo, nmConsumed, advStep_count]
+  | tensor s d => cases s <;> simp [namesStep, isNumber, advInfo, nmConsumed, advStep_count]
+  | list l => simp [namesStep, isNumber, advInfo, nmConsumed, advStep_count]
+  | range a b c => simp [namesStep, isNumber, advInfo, nmConsumed, advStep_count]
+  | none => simp [namesStep, nmConsumed]
+  | int i => simp [namesStep, isNumber, nmConsumed]
+  | slice a b c => simp [namesStep, isNumber, advInfo, nmConsumed, sepStep]
+  | ell => simp [namesStep, isNumber, advInfo, nmConsumed, sepStep]
+
+theorem namesStep_inv (x : Ix) (st : NamesSt) (h : NmInv st) : NmInv (namesStep x st) := by
+  have numInv : NmInv { st with count := st.count + 1 } :=
+    ⟨fun i hi => Nat.lt_succ_of_lt (h.1 i hi), fun ha => Nat.lt_succ_of_lt (h.2 ha), h.3⟩
+  cases x with
+  | none =>
+    refine ⟨?_, ?_, ?_⟩
+    · intro i hi; simp [namesStep] at hi; exact h.1 i hi
+    · intro ha; exact h.2 (by simpa [namesStep] using ha)
+    · intro p hp; have := h.3 p (by simpa [namesStep] using hp); simp [namesStep]; omega
+  | int i => simpa [namesStep, isNumber] using numInv
+  | slice a b c => simpa [namesStep, isNumber, advInfo] using sepStep_inv st h
+  | ell => simpa [namesStep, isNumber, advInfo] using sepStep_inv st h
+  | list l => simpa [namesStep, isNumber, advInfo] using advStep_inv 1 1 false st (by omega) h
+  | range a b c => simpa [namesStep, isNumber, advInfo] using advStep_inv 1 1 false st (by omega) h
+  | tensor s d =>
+    cases s with
+    | nil => simpa [namesStep, isNumber] using numInv
+    | cons m s => simpa [namesStep, isNumber, advInfo] using advStep_inv _ 1 false st (by omega) h
+  | mask s d =>
+    cases s with
+    | nil => simpa [namesStep, isNumber] using numInv
+    | cons m s => simpa [namesStep, isNumber, advInfo] using advStep_inv 1 _ true st (by simp) h
+
+def nmConsumedAll : List Ix → Nat
+  | [] => 0
+  | x :: r => nmConsumed x + nmConsumedAll r
+
+theorem namesLoop_inv (items : List Ix) : ∀ st, NmInv st →
+    NmInv (namesLoop items st) ∧ (namesLoop items st).count = st.count + nmConsumedAll items := by
   induction items with
-  | nil => intro st; exact ⟨by simp [namesLoop, nonNone], fun i hi => Or.inl (by simpa [namesLoop] using hi)⟩
+  | nil => intro st h; exact ⟨h, by simp [namesLoop, nmConsumedAll]⟩
   | cons x r ih =>
-    intro st
-    cases x with
-    | none =>
-      obtain ⟨h1, h2⟩ := ih { st with take := st.take ++ [none] }
-      simp only [namesLoop, nonNone_cons_none]
-      refine ⟨h1, fun i hi => ?_⟩
-      rcases h2 i hi with h | h
-      · left; simpa using h
-      · right; exact h
-    | int i' =>
-      obtain ⟨h1, h2⟩ := ih { st with count := st.count + 1 }
-      simp only [namesLoop, nonNone_cons _ _ (by simp : Ix.int i' ≠ Ix.none)]
-      refine ⟨by simp at h1 ⊢; omega, fun i hi => ?_⟩
-      rcases h2 i hi with h | h
-      · left; exact h
-      · right; simp at h ⊢; omega
-    | slice a b c =>
-      obtain ⟨h1, h2⟩ := ih { st with take := st.take ++ [some st.count], count := st.count + 1 }
-      simp only [namesLoop, nonNone_cons _ _ (by simp : Ix.slice a b c ≠ Ix.none)]
-      refine ⟨by simp at h1 ⊢; omega, fun i hi => ?_⟩
-      rcases h2 i hi with h | h
-      · simp at h; rcases h with h | h
-        · left; exact h
-        · right; omega
-      · right; simp at h ⊢; omega
-    | ell =>
-      obtain ⟨h1, h2⟩ := ih { st with take := st.take ++ [some st.count], count := st.count + 1 }
-      simp only [namesLoop, nonNone_cons _ _ (by simp : Ix.ell ≠ Ix.none)]
-      refine ⟨by simp at h1 ⊢; omega, fun i hi => ?_⟩
-      rcases h2 i hi with h | h
-      · simp at h; rcases h with h | h
-        · left; exact h
-        · right; omega
-      · right; simp at h ⊢; omega
-    | list l =>
-      obtain ⟨h1, h2⟩ := ih { st with take := st.take ++ [some st.count], count := st.count + 1 }
-      simp only [namesLoop, nonNone_cons _ _ (by simp : Ix.list l ≠ Ix.none)]
-      refine ⟨by simp at h1 ⊢; omega, fun i hi => ?_⟩
-      rcases h2 i hi with h | h
-      · simp at h; rcases h with h | h
-        · left; exact h
-        · right; omega
-      · right; simp at h ⊢; omega
-    | range a b c =>
-      obtain ⟨h1, h2⟩ := ih { st with take := st.take ++ [some st.count], count := st.count + 1 }
-      simp only [namesLoop, nonNone_cons _ _ (by simp : Ix.range a b c ≠ Ix.none)]
-      refine ⟨by simp at h1 ⊢; omega, fun i hi => ?_⟩
-      rcases h2 i hi with h | h
-      · simp at h; rcases h with h | h
-        · left; exact h
-        · right; omega
-      · right; simp at h ⊢; omega
-    | tensor s d =>
-      have hne : Ix.tensor s d ≠ Ix.none := by simp
-      cases s with
-      | nil =>
-        obtain ⟨h1, h2⟩ := ih { st with count := st.count + 1 }
-        simp only [namesLoop, nonNone_cons _ _ hne]
-        refine ⟨by simp at h1 ⊢; omega, fun i hi => ?_⟩
-        rcases h2 i hi with h | h
-        · left; exact h
-        · right; simp at h ⊢; omega
-      | cons m s' =>
-        simp only [namesLoop, nonNone_cons _ _ hne]
-        cases hnm : st.noMore
-        · obtain ⟨h1, h2⟩ := ih { take := st.take ++ List.replicate (m :: s').length (some st.count), count := st.count + 1, noMore := true }
-          simp only [Bool.not_false, if_true]
-          refine ⟨by simp at h1 ⊢; omega, fun i hi => ?_⟩
-          rcases h2 i hi with h | h
-          · simp at h; rcases h with h | h
-            · left; exact h
-            · right; omega
-          · right; simp at h ⊢; omega
-        · obtain ⟨h1, h2⟩ := ih { take := st.take, count := st.count + 1, noMore := true }
-          simp only [Bool.not_true, Bool.false_eq_true, if_false]
-          refine ⟨by simp at h1 ⊢; omega, fun i hi => ?_⟩
-          rcases h2 i hi with h | h
-          · left; exact h
-          · right; simp at h ⊢; omega
-    | mask s d =>
-      have hne : Ix.mask s d ≠ Ix.none := by simp
-      simp only [namesLoop, nonNone_cons _ _ hne]
-      cases hnm : st.noMore
-      · obtain ⟨h1, h2⟩ := ih { take := st.take ++ List.replicate s.length (some st.count), count := st.count + 1, noMore := true }
-        simp only [Bool.not_false, if_true]
-        refine ⟨by simp at h1 ⊢; omega, fun i hi => ?_⟩
-        rcases h2 i hi with h | h
-        · simp at h; rcases h with h | h
-          · left; exact h
-          · right; omega
-        · right; simp at h ⊢; omega
-      · obtain ⟨h1, h2⟩ := ih { take := st.take, count := st.count + 1, noMore := true }
-        simp only [Bool.not_true, Bool.false_eq_true, if_false]
-        refine ⟨by simp at h1 ⊢; omega, fun i hi => ?_⟩
-        rcases h2 i hi with h | h
-        · left; exact h
-        · right; simp at h ⊢; omega
+    intro st h
+    obtain ⟨h1, h2⟩ := ih (namesStep x st) (namesStep_inv x st h)
+    refine ⟨by simpa [namesLoop] using h1, ?_⟩
+    simp only [namesLoop, h2, namesStep_count, nmConsumedAll]; omega
 
-theorem lookNames_ok (names : Names) (t : List (Option Nat)) (h : ∀ i, some i ∈ t → i < names.length) :
-    ∃ l, lookNames names t = .ok l := by
-  induction t with
-  | nil => exact ⟨[], by simp [lookNames, pure, Except.pure]⟩
-  | cons x r ih =>
-    obtain ⟨l, hl⟩ := ih (fun i hi => h i (by simp [hi]))
-    cases x with
-    | none => exact ⟨none :: l, by rw [lookNames_cons_none, hl]; rfl⟩
-    | some i =>
-      have hi := h i (by simp)
-      have hget : names[i]? = some names[i] := List.getElem?_eq_getElem hi
-      exact ⟨names[i] :: l, by rw [lookNames_cons_some names r i _ hget, hl]; rfl⟩
+theorem NmInv_init : NmInv NamesSt.init :=
+  ⟨fun i hi => by simp [NamesSt.init] at hi, fun ha => by simp [NamesSt.init] at ha, fun p hp => by simp [NamesSt.init] at hp⟩
+
+/-- every position `namesFinish` asks for has been counted -/
+theorem namesFinish_lt (st : NamesSt) (h : NmInv st) : ∀ i, some i ∈ namesFinish st → i < st.count := by
+  intro i hi
+  unfold namesFinish at hi
+  cases hp : st.advPos with
+  | none => rw [hp] at hi; exact h.1 i hi
+  | some p =>
+    rw [hp] at hi
+    simp only at hi
+    have hblock : ∀ n (v : Option Nat), some i ∈ List.replicate n v → v = some i := by
+      intro n v hv; exact (List.eq_of_mem_replicate hv).symm
+    have hadv : ∀ (v : Option Nat), v = (if st.nAdv = 1 ∧ (!st.advIsMask) = true then some st.advDim else none) →
+        v = some i → i < st.count := by
+      intro v hv hvi
+      rw [hv] at hvi
+      split at hvi
+      · cases hvi; exact h.2 (by simp [hp])
+      · cases hvi
+    split at hi
+    · rcases List.mem_append.mp hi with hi | hi
+      · exact hadv _ rfl (hblock _ _ hi)
+      · exact h.1 i hi
+    · rcases List.mem_append.mp hi with hi | hi
+      · rcases List.mem_append.mp hi with hi | hi
+        · exact h.1 i (List.mem_of_mem_take hi)
+        · exact hadv _ rfl (hblock _ _ hi)
+      · exact h.1 i (List.mem_of_mem_drop hi)
 
 end TdVerif.C03
 
 namespace TdVerif.C03
 open TorchSpec Td
 
-theorem nonNone_append (a b : List Ix) : nonNone (a ++ b) = nonNone a + nonNone b := by
-  simp [nonNone, List.filter_append]
+theorem lookNames_ok (names : Names) (t : List (Option Nat)) (h : ∀ i, some i ∈ t → i < names.length) :
+    ∃ l, lookNames names t = .ok l ∧ l.length = t.length := by
+  induction t with
+  | nil => exact ⟨[], by simp [lookNames, pure, Except.pure], rfl⟩
+  | cons x r ih =>
+    obtain ⟨l, hl, hlen⟩ := ih (fun i hi => h i (by simp [hi]))
+    cases x with
+    | none => exact ⟨none :: l, by rw [lookNames_cons_none, hl]; rfl, by simp [hlen]⟩
+    | some i =>
+      have hi := h i (by simp)
+      have hget : names[i]? = some names[i] := List.getElem?_eq_getElem hi
+      exact ⟨names[i] :: l, by rw [lookNames_cons_some names r i _ hget, hl]; rfl, by simp [hlen]⟩
 
-theorem nonNone_replicate_slAll (k : Nat) : nonNone (List.replicate k slAll) = k := by
+theorem nmConsumedAll_append (a b : List Ix) : nmConsumedAll (a ++ b) = nmConsumedAll a + nmConsumedAll b := by
+  induction a with
+  | nil => simp [nmConsumedAll]
+  | cons x r ih => simp [nmConsumedAll, ih]; omega
+
+theorem nmConsumedAll_replicate_slAll (k : Nat) : nmConsumedAll (List.replicate k slAll) = k := by
   induction k with
   | zero => rfl
-  | succ k ih => rw [List.replicate_succ, nonNone_cons _ _ (by simp [slAll]), ih]
+  | succ k ih => simp [List.replicate_succ, nmConsumedAll, nmConsumed, slAll] at ih ⊢; omega
 
-/-- an index torch accepts names at least one dim per non-`None` item (a mask at least one) -/
-theorem nonNone_le_specified (items : List Ix) : ∀ (e : Nat) (dims : Shape) (P : List Piece),
-    noEll items = true → walk e dims items = .ok P → nonNone items ≤ specified items := by
+/-- on an index torch accepts, `count` advances by the dims torch says the index names -/
+theorem nmConsumedAll_eq_specified (items : List Ix) : ∀ (e : Nat) (dims : Shape) (P : List Piece),
+    noEll items = true → walk e dims items = .ok P → nmConsumedAll items = specified items := by
   induction items with
-  | nil => intro _ _ _ _ _; exact Nat.le_refl _
+  | nil => intro _ _ _ _ _; rfl
   | cons x r ih =>
     intro e dims P hn h
     simp only [noEll_cons, Bool.and_eq_true] at hn
@@ -377,15 +395,16 @@ theorem nonNone_le_specified (items : List Ix) : ∀ (e : Nat) (dims : Shape) (P
     | none =>
       simp only [walk] at h
       obtain ⟨P', h1, -⟩ := map_ok h
-      simpa [nonNone_cons_none, specified] using ih _ _ _ hr h1
+      simpa [nmConsumedAll, nmConsumed, specified] using ih _ _ _ hr h1
     | mask s d =>
       simp only [walk] at h
       split at h
       · rename_i hs
         obtain ⟨P', h1, -⟩ := map_ok h
         have := ih _ _ _ hr h1
-        have hpos : 0 < s.length := by cases s <;> simp_all
-        rw [nonNone_cons _ _ (by simp)]; simp only [specified]; omega
+        cases s with
+        | nil => exact absurd rfl hs.1
+        | cons m s' => simp [nmConsumedAll, nmConsumed, specified, this]
       · cases h
     | int i =>
       cases dims with
@@ -393,32 +412,28 @@ theorem nonNone_le_specified (items : List Ix) : ∀ (e : Nat) (dims : Shape) (P
       | cons n ds =>
         simp only [walk] at h
         obtain ⟨P', h1, -, -⟩ := consSel_ok h
-        have := ih _ _ _ hr h1
-        rw [nonNone_cons _ _ (by simp)]; simp only [specified]; omega
+        simp [nmConsumedAll, nmConsumed, specified, ih _ _ _ hr h1]
     | slice a b c =>
       cases dims with
       | nil => simp [walk] at h
       | cons n ds =>
         simp only [walk] at h
         obtain ⟨P', s, e', st', h1, -, -, -⟩ := consSlice_ok h
-        have := ih _ _ _ hr h1
-        rw [nonNone_cons _ _ (by simp)]; simp only [specified]; omega
+        simp [nmConsumedAll, nmConsumed, specified, ih _ _ _ hr h1]
     | list l =>
       cases dims with
       | nil => simp [walk] at h
       | cons n ds =>
         simp only [walk] at h
         obtain ⟨P', h1, -⟩ := consAdv_ok h
-        have := ih _ _ _ hr h1
-        rw [nonNone_cons _ _ (by simp)]; simp only [specified]; omega
+        simp [nmConsumedAll, nmConsumed, specified, ih _ _ _ hr h1]
     | range a b c =>
       cases dims with
       | nil => simp [walk] at h
       | cons n ds =>
         simp only [walk] at h
         obtain ⟨P', h1, -⟩ := consAdv_ok h
-        have := ih _ _ _ hr h1
-        rw [nonNone_cons _ _ (by simp)]; simp only [specified]; omega
+        simp [nmConsumedAll, nmConsumed, specified, ih _ _ _ hr h1]
     | tensor s d =>
       cases dims with
       | nil => cases s <;> simp [walk] at h
@@ -427,46 +442,48 @@ theorem nonNone_le_specified (items : List Ix) : ∀ (e : Nat) (dims : Shape) (P
         | nil =>
           simp only [walk] at h
           obtain ⟨P', h1, -, -⟩ := consSel_ok h
-          have := ih _ _ _ hr h1
-          rw [nonNone_cons _ _ (by simp)]; simp only [specified]; omega
+          simp [nmConsumedAll, nmConsumed, specified, ih _ _ _ hr h1]
         | cons m s =>
           simp only [walk] at h
           obtain ⟨P', h1, -⟩ := consAdv_ok h
-          have := ih _ _ _ hr h1
-          rw [nonNone_cons _ _ (by simp)]; simp only [specified]; omega
+          simp [nmConsumedAll, nmConsumed, specified, ih _ _ _ hr h1]
+
+/-- the index `_get_names_idx` iterates over, for an index torch accepts: the items followed by explicit full slices
+    for the dims left (whether or not an Ellipsis had to be appended) -/
+theorem namesItems_convert (bs : Shape) (items : List Ix) (e : Nat) (P : List Piece)
+    (hn : noEll items = true) (hs : specified items ≤ bs.length) (hw : walk e bs items = .ok P) :
+    ∃ k, k + specified items ≤ bs.length ∧
+      convertEllipsis (.tuple (namesItems items bs.length)) bs.length = .ok (.tuple (items ++ List.replicate k slAll)) := by
+  unfold namesItems
+  by_cases hlt : (items.filter (· ≠ Ix.none)).length < bs.length
+  · rw [if_pos hlt]
+    have := convertEllipsis_one items [] bs.length hn rfl (by simpa [specified] using hs)
+    exact ⟨bs.length - specified items, by omega, by simpa [specified] using this⟩
+  · rw [if_neg hlt]
+    have hall : items.all (· != Ix.ell) = true := hn
+    exact ⟨0, by omega, by simp [convertEllipsis, hall]⟩
 
 /-- `_get_names_idx` never fails on an index torch accepts on the batch shape (coherent names): every `names[i]` it looks up
-    exists. (What it returns for advanced indices is another matter: `names_follow_index_counterexample`.) -/
+    exists; and it returns as many names as it announces (`namesFinish`) -/
+theorem namesTake_ok (names : Names) (bs : Shape) (items : List Ix) (e : Nat) (P : List Piece)
+    (hn : noEll items = true) (hlen : names.length = bs.length)
+    (hs : specified items ≤ bs.length) (hw : walk e bs items = .ok P) :
+    ∃ k l, k + specified items ≤ bs.length ∧ namesTake names bs.length items = .ok l ∧
+      l.length = (namesFinish (namesLoop (items ++ List.replicate k slAll) NamesSt.init)).length := by
+  obtain ⟨k, hk, hc⟩ := namesItems_convert bs items e P hn hs hw
+  obtain ⟨hinv, hcount⟩ := namesLoop_inv (items ++ List.replicate k slAll) NamesSt.init NmInv_init
+  have hcnt : (namesLoop (items ++ List.replicate k slAll) NamesSt.init).count ≤ bs.length := by
+    rw [hcount, nmConsumedAll_append, nmConsumedAll_replicate_slAll, nmConsumedAll_eq_specified items e bs P hn hw]
+    simp [NamesSt.init]; omega
+  obtain ⟨l, hl, hll⟩ := lookNames_ok names (namesFinish (namesLoop (items ++ List.replicate k slAll) NamesSt.init))
+    (fun i hi => by have := namesFinish_lt _ hinv i hi; omega)
+  exact ⟨k, l, hk, by simp only [namesTake, hc, PyIndex.items, hl], hll⟩
+
 theorem namesIdx_ok (names : Names) (bs : Shape) (items : List Ix) (e : Nat) (P : List Piece)
     (hn : noEll items = true) (hlen : names.length = bs.length)
     (hs : specified items ≤ bs.length) (hw : walk e bs items = .ok P) :
     ∃ nm, namesIdx (some names) bs.length (.tuple items) = .ok nm := by
-  have hle := nonNone_le_specified items e bs P hn hw
-  -- the converted index and the number of its non-None items
-  have hconv : ∃ conv, convertEllipsis (.tuple (namesItems items bs.length)) bs.length
-      = .ok (.tuple conv) ∧ nonNone conv ≤ bs.length := by
-    unfold namesItems
-    by_cases hlt : (items.filter (· ≠ Ix.none)).length < bs.length
-    · rw [if_pos hlt]
-      have := convertEllipsis_one items [] bs.length hn rfl (by simpa [specified] using hs)
-      refine ⟨_, this, ?_⟩
-      rw [nonNone_append, nonNone_append, nonNone_replicate_slAll]
-      simp only [specified, nonNone, List.filter_nil, List.length_nil] at hle ⊢
-      omega
-    · rw [if_neg hlt]
-      have hall : items.all (· != Ix.ell) = true := hn
-      refine ⟨items, by simp [convertEllipsis, hall], ?_⟩
-      simp only [nonNone] at hle ⊢
-      omega
-  obtain ⟨conv, hc, hcnt⟩ := hconv
-  obtain ⟨h1, h2⟩ := namesLoop_bound conv { take := [], count := 0, noMore := false }
-  obtain ⟨l, hl⟩ := lookNames_ok names (namesLoop conv { take := [], count := 0, noMore := false }).take (by
-    intro i hi
-    rcases h2 i hi with h | h
-    · simp at h
-    · simp at h; omega)
-  have htake : namesTake names bs.length items = .ok l := by
-    simp only [namesTake, hc, PyIndex.items, hl]
+  obtain ⟨k, l, -, htake, -⟩ := namesTake_ok names bs items e P hn hlen hs hw
   simp only [namesIdx, PyIndex.items, htake]
   cases hb : isBoolean (.tuple items) with
   | some k =>
@@ -496,5 +513,441 @@ theorem namesIdx_single (tdnames : Option Names) (n : Nat) (x : Ix) :
   cases tdnames with
   | none => rfl
   | some names => cases x <;> rfl
+
+end TdVerif.C03
+
+namespace TdVerif.C03
+open TorchSpec Td
+
+/-- number of dims of the broadcast of a list of shapes -/
+def maxRank : List Shape → Nat
+  | [] => 0
+  | s :: r => max s.length (maxRank r)
+
+theorem bcRev_length : ∀ (a b r : List Nat), bcRev a b = some r → r.length = max a.length b.length := by
+  intro a
+  induction a with
+  | nil => intro b r h; simp [bcRev] at h; subst h; simp
+  | cons x a ih =>
+    intro b r h
+    cases b with
+    | nil => simp [bcRev] at h; subst h; simp
+    | cons y b =>
+      simp only [bcRev] at h
+      cases hr : bcRev a b with
+      | none => simp [hr] at h
+      | some r' =>
+        have := ih b r' hr
+        simp only [hr] at h
+        split at h
+        · cases h; simp [this]; try omega
+        · split at h
+          · cases h; simp [this]; try omega
+          · split at h
+            · cases h; simp [this]; try omega
+            · cases h
+
+theorem broadcast2_length (a b r : Shape) (h : broadcast2 a b = some r) : r.length = max a.length b.length := by
+  unfold broadcast2 at h
+  cases hr : bcRev a.reverse b.reverse with
+  | none => simp [hr] at h
+  | some r' =>
+    simp [hr] at h; subst h
+    have := bcRev_length _ _ _ hr
+    simpa using this
+
+theorem broadcastAll_length : ∀ (l : List Shape) (B : Shape), broadcastAll l = some B → B.length = maxRank l := by
+  intro l
+  induction l with
+  | nil => intro B h; simp [broadcastAll] at h; subst h; rfl
+  | cons s r ih =>
+    intro B h
+    simp only [broadcastAll] at h
+    cases hr : broadcastAll r with
+    | none => simp [hr] at h
+    | some B' =>
+      simp only [hr, Option.bind_some] at h
+      rw [broadcast2_length s B' B h, ih B' hr, maxRank]
+
+theorem maxRank_append (a b : List Shape) : maxRank (a ++ b) = max (maxRank a) (maxRank b) := by
+  induction a with
+  | nil => simp [maxRank]
+  | cons s r ih => simp [maxRank, ih]; try omega
+
+/-- the loop of `_get_names_idx` in torch's terms: it keeps one position per sliced / new dim, counts the broadcast dims
+    as the largest rank among the index arrays, and notices whether there is an index array at all -/
+theorem namesLoop_walk (items : List Ix) : ∀ (e : Nat) (dims : Shape) (P : List Piece) (st : NamesSt),
+    noEll items = true → walk e dims items = .ok P →
+    (namesLoop items st).take.length + dims.length = st.take.length + streamLen P + specified items ∧
+    (namesLoop items st).advNdim = max st.advNdim (maxRank (advShapes P)) ∧
+    (namesLoop items st).advPos.isSome = (st.advPos.isSome || hasAdv P) := by
+  induction items with
+  | nil =>
+    intro e dims P st _ h
+    simp [walk] at h; subst h
+    simp [namesLoop, streamLen_fulls, specified, hasAdv, maxRank]
+  | cons x r ih =>
+    intro e dims P st hn h
+    simp only [noEll_cons, Bool.and_eq_true] at hn
+    obtain ⟨hx, hr⟩ := hn
+    have advFields : ∀ nd c m, (advStep nd c m st).take = st.take ∧ (advStep nd c m st).advNdim = max st.advNdim nd ∧
+        (advStep nd c m st).advPos.isSome = true := by
+      intro nd c m
+      unfold advStep
+      cases hp : st.advPos with
+      | none => simp
+      | some p => simp only [Option.isNone_some, Bool.false_eq_true, if_false]; split <;> simp [hp]
+    cases x with
+    | ell => simp at hx
+    | none =>
+      simp only [walk] at h
+      obtain ⟨P', h1, rfl⟩ := map_ok h
+      obtain ⟨a1, a2, a3⟩ := ih e dims P' { st with take := st.take ++ [none], sepAfterAdv := st.advPos.isSome } hr h1
+      have hstep : namesStep Ix.none st = { st with take := st.take ++ [none], sepAfterAdv := st.advPos.isSome } := rfl
+      simp only [namesLoop, hstep]
+      dsimp only at a1 a2 a3
+      refine ⟨?_, ?_, ?_⟩
+      · simp only [List.length_append, List.length_cons, List.length_nil] at a1
+        simp only [streamLen, specified]; omega
+      · rw [a2]; simp [advShapes]
+      · rw [a3]; simp [hasAdv, advShapes]
+    | mask s d =>
+      simp only [walk] at h
+      split at h
+      · rename_i hs
+        obtain ⟨P', h1, rfl⟩ := map_ok h
+        cases s with
+        | nil => exact absurd rfl hs.1
+        | cons m s' =>
+          have hlen : (m :: s').length ≤ dims.length := by
+            have := congrArg List.length hs.2; simp at this; simp; omega
+          have hstep : namesStep (Ix.mask (m :: s') d) st = advStep 1 (m :: s').length true st := by simp [namesStep, isNumber, advInfo]
+          obtain ⟨a1, a2, a3⟩ := ih e (dims.drop (m :: s').length) P' (advStep 1 (m :: s').length true st) hr h1
+          obtain ⟨f1, f2, f3⟩ := advFields 1 (m :: s').length true
+          simp only [namesLoop, hstep]
+          rw [f1] at a1; rw [f2] at a2; rw [f3] at a3
+          refine ⟨?_, ?_, ?_⟩
+          · simp only [List.length_drop] at a1
+            simp only [streamLen, specified, maskPiece]; omega
+          · rw [a2]; simp [advShapes, maskPiece, maxRank]; try omega
+          · rw [a3]; simp [hasAdv, advShapes, maskPiece]
+      · cases h
+    | int i =>
+      cases dims with
+      | nil => simp [walk] at h
+      | cons n ds =>
+        simp only [walk] at h
+        obtain ⟨P', h1, rfl, -⟩ := consSel_ok h
+        have hstep : namesStep (Ix.int i) st = { st with count := st.count + 1 } := by simp [namesStep, isNumber]
+        obtain ⟨a1, a2, a3⟩ := ih e ds P' { st with count := st.count + 1 } hr h1
+        simp only [namesLoop, hstep]
+        dsimp only at a1 a2 a3
+        exact ⟨by simp only [streamLen, specified]; rw [show (n :: ds).length = ds.length + 1 from rfl]; omega, by rw [a2]; simp [advShapes],
+          by rw [a3]; simp [hasAdv, advShapes]⟩
+    | slice a b c =>
+      cases dims with
+      | nil => simp [walk] at h
+      | cons n ds =>
+        simp only [walk] at h
+        obtain ⟨P', s, e', st', h1, -, -, rfl⟩ := consSlice_ok h
+        have hstep : namesStep (Ix.slice a b c) st = sepStep st := by simp [namesStep, isNumber, advInfo]
+        obtain ⟨a1, a2, a3⟩ := ih e ds P' (sepStep st) hr h1
+        simp only [namesLoop, hstep]
+        have s1 : (sepStep st).take.length = st.take.length + 1 := by simp [sepStep]
+        have s2 : (sepStep st).advNdim = st.advNdim := rfl
+        have s3 : (sepStep st).advPos = st.advPos := rfl
+        rw [s1] at a1; rw [s2] at a2; rw [s3] at a3
+        refine ⟨?_, ?_, ?_⟩
+        · simp only [streamLen, specified]; rw [show (n :: ds).length = ds.length + 1 from rfl]; omega
+        · rw [a2]; simp [advShapes]
+        · rw [a3]; simp [hasAdv, advShapes]
+    | list l =>
+      cases dims with
+      | nil => simp [walk] at h
+      | cons n ds =>
+        simp only [walk] at h
+        obtain ⟨P', h1, rfl⟩ := consAdv_ok h
+        have hstep : namesStep (Ix.list l) st = advStep 1 1 false st := by simp [namesStep, isNumber, advInfo]
+        obtain ⟨a1, a2, a3⟩ := ih e ds P' (advStep 1 1 false st) hr h1
+        obtain ⟨f1, f2, f3⟩ := advFields 1 1 false
+        simp only [namesLoop, hstep]
+        rw [f1] at a1; rw [f2] at a2; rw [f3] at a3
+        refine ⟨?_, ?_, ?_⟩
+        · simp only [streamLen, specified]; rw [show (n :: ds).length = ds.length + 1 from rfl]; omega
+        · rw [a2]; simp [advShapes, maxRank]; try omega
+        · rw [a3]; simp [hasAdv, advShapes]
+    | range a b c =>
+      cases dims with
+      | nil => simp [walk] at h
+      | cons n ds =>
+        simp only [walk] at h
+        obtain ⟨P', h1, rfl⟩ := consAdv_ok h
+        have hstep : namesStep (Ix.range a b c) st = advStep 1 1 false st := by simp [namesStep, isNumber, advInfo]
+        obtain ⟨a1, a2, a3⟩ := ih e ds P' (advStep 1 1 false st) hr h1
+        obtain ⟨f1, f2, f3⟩ := advFields 1 1 false
+        simp only [namesLoop, hstep]
+        rw [f1] at a1; rw [f2] at a2; rw [f3] at a3
+        refine ⟨?_, ?_, ?_⟩
+        · simp only [streamLen, specified]; rw [show (n :: ds).length = ds.length + 1 from rfl]; omega
+        · rw [a2]; simp [advShapes, maxRank]; try omega
+        · rw [a3]; simp [hasAdv, advShapes]
+    | tensor s d =>
+      cases dims with
+      | nil => cases s <;> simp [walk] at h
+      | cons n ds =>
+        cases s with
+        | nil =>
+          simp only [walk] at h
+          obtain ⟨P', h1, rfl, -⟩ := consSel_ok h
+          have hstep : namesStep (Ix.tensor [] d) st = { st with count := st.count + 1 } := by simp [namesStep, isNumber]
+          obtain ⟨a1, a2, a3⟩ := ih e ds P' { st with count := st.count + 1 } hr h1
+          simp only [namesLoop, hstep]
+          dsimp only at a1 a2 a3
+          exact ⟨by simp only [streamLen, specified]; rw [show (n :: ds).length = ds.length + 1 from rfl]; omega, by rw [a2]; simp [advShapes],
+            by rw [a3]; simp [hasAdv, advShapes]⟩
+        | cons m s' =>
+          simp only [walk] at h
+          obtain ⟨P', h1, rfl⟩ := consAdv_ok h
+          have hstep : namesStep (Ix.tensor (m :: s') d) st = advStep (m :: s').length 1 false st := by simp [namesStep, isNumber, advInfo]
+          obtain ⟨a1, a2, a3⟩ := ih e ds P' (advStep (m :: s').length 1 false st) hr h1
+          obtain ⟨f1, f2, f3⟩ := advFields (m :: s').length 1 false
+          simp only [namesLoop, hstep]
+          rw [f1] at a1; rw [f2] at a2; rw [f3] at a3
+          refine ⟨?_, ?_, ?_⟩
+          · simp only [streamLen, specified]; rw [show (n :: ds).length = ds.length + 1 from rfl]; omega
+          · rw [a2]; simp [advShapes, maxRank]; try omega
+          · rw [a3]; simp [hasAdv, advShapes]
+
+end TdVerif.C03
+
+namespace TdVerif.C03
+open TorchSpec Td
+
+theorem namesFinish_length (st : NamesSt) (h : NmInv st) :
+    (namesFinish st).length = st.take.length + (if st.advPos.isSome then st.advNdim else 0) := by
+  unfold namesFinish
+  cases hp : st.advPos with
+  | none => simp
+  | some p =>
+    have hle := h.3 p hp
+    simp only [Option.isSome_some, if_true]
+    split
+    · simp; omega
+    · simp [List.length_take, List.length_drop]; omega
+
+/-- explicit trailing full slices are torch's implicit tail -/
+theorem walk_append_slAll (items : List Ix) : ∀ (e k : Nat) (dims : Shape), noEll items = true →
+    k + specified items ≤ dims.length →
+    walk e dims (items ++ List.replicate k slAll) = walk e dims items := by
+  induction items with
+  | nil =>
+    intro e k dims _ hk
+    have := walk_replicate k e dims [] (by simpa [specified] using hk)
+    simp only [List.append_nil] at this
+    simp only [List.nil_append, this, walk, Except.map, ← List.map_append, List.take_append_drop]
+  | cons x r ih =>
+    intro e k dims hn hk
+    simp only [noEll_cons, Bool.and_eq_true] at hn
+    obtain ⟨hx, hr⟩ := hn
+    cases x with
+    | ell => simp at hx
+    | none => simp only [List.cons_append, walk]; rw [ih e k dims hr (by simpa [specified] using hk)]
+    | mask s d =>
+      simp only [List.cons_append, walk]
+      split
+      · rename_i hs
+        have hlen : s.length ≤ dims.length := by
+          have := congrArg List.length hs.2; simp at this; omega
+        rw [ih e k _ hr (by simp [specified] at hk ⊢; omega)]
+      · rfl
+    | int i =>
+      cases dims with
+      | nil => simp [walk]
+      | cons n ds => simp only [List.cons_append, walk]; rw [ih e k ds hr (by simp [specified] at hk ⊢; omega)]
+    | slice a b c =>
+      cases dims with
+      | nil => simp [walk]
+      | cons n ds => simp only [List.cons_append, walk]; rw [ih e k ds hr (by simp [specified] at hk ⊢; omega)]
+    | list l =>
+      cases dims with
+      | nil => simp [walk]
+      | cons n ds => simp only [List.cons_append, walk]; rw [ih e k ds hr (by simp [specified] at hk ⊢; omega)]
+    | range a b c =>
+      cases dims with
+      | nil => simp [walk]
+      | cons n ds => simp only [List.cons_append, walk]; rw [ih e k ds hr (by simp [specified] at hk ⊢; omega)]
+    | tensor s d =>
+      cases dims with
+      | nil => cases s <;> simp [walk]
+      | cons n ds =>
+        cases s <;>
+        · simp only [List.cons_append, walk]; rw [ih e k ds hr (by simp [specified] at hk ⊢; omega)]
+
+/-- an index torch accepts names at least one dim per non-`None` item -/
+theorem filterLen_le_specified (items : List Ix) : ∀ (e : Nat) (dims : Shape) (P : List Piece),
+    noEll items = true → walk e dims items = .ok P → (items.filter (· ≠ Ix.none)).length ≤ specified items := by
+  induction items with
+  | nil => intro _ _ _ _ _; exact Nat.le_refl _
+  | cons x r ih =>
+    intro e dims P hn h
+    simp only [noEll_cons, Bool.and_eq_true] at hn
+    obtain ⟨hx, hr⟩ := hn
+    cases x with
+    | ell => simp at hx
+    | none =>
+      simp only [walk] at h
+      obtain ⟨P', h1, -⟩ := map_ok h
+      simpa [specified] using ih _ _ _ hr h1
+    | mask s d =>
+      simp only [walk] at h
+      split at h
+      · rename_i hs
+        obtain ⟨P', h1, -⟩ := map_ok h
+        have := ih _ _ _ hr h1
+        have hpos : 0 < s.length := by cases s <;> simp_all
+        simp [specified] at this ⊢; omega
+      · cases h
+    | int i =>
+      cases dims with
+      | nil => simp [walk] at h
+      | cons n ds =>
+        simp only [walk] at h
+        obtain ⟨P', h1, -, -⟩ := consSel_ok h
+        have := ih _ _ _ hr h1; simp [specified] at this ⊢; omega
+    | slice a b c =>
+      cases dims with
+      | nil => simp [walk] at h
+      | cons n ds =>
+        simp only [walk] at h
+        obtain ⟨P', s, e', st', h1, -, -, -⟩ := consSlice_ok h
+        have := ih _ _ _ hr h1; simp [specified] at this ⊢; omega
+    | list l =>
+      cases dims with
+      | nil => simp [walk] at h
+      | cons n ds =>
+        simp only [walk] at h
+        obtain ⟨P', h1, -⟩ := consAdv_ok h
+        have := ih _ _ _ hr h1; simp [specified] at this ⊢; omega
+    | range a b c =>
+      cases dims with
+      | nil => simp [walk] at h
+      | cons n ds =>
+        simp only [walk] at h
+        obtain ⟨P', h1, -⟩ := consAdv_ok h
+        have := ih _ _ _ hr h1; simp [specified] at this ⊢; omega
+    | tensor s d =>
+      cases dims with
+      | nil => cases s <;> simp [walk] at h
+      | cons n ds =>
+        cases s with
+        | nil =>
+          simp only [walk] at h
+          obtain ⟨P', h1, -, -⟩ := consSel_ok h
+          have := ih _ _ _ hr h1; simp [specified] at this ⊢; omega
+        | cons m s =>
+          simp only [walk] at h
+          obtain ⟨P', h1, -⟩ := consAdv_ok h
+          have := ih _ _ _ hr h1; simp [specified] at this ⊢; omega
+
+theorem namesItems_convert_eq (bs : Shape) (items : List Ix) (e : Nat) (P : List Piece)
+    (hn : noEll items = true) (hs : specified items ≤ bs.length) (hw : walk e bs items = .ok P) :
+    convertEllipsis (.tuple (namesItems items bs.length)) bs.length
+      = .ok (.tuple (items ++ List.replicate (bs.length - specified items) slAll)) := by
+  unfold namesItems
+  by_cases hlt : (items.filter (· ≠ Ix.none)).length < bs.length
+  · rw [if_pos hlt]
+    have := convertEllipsis_one items [] bs.length hn rfl (by simpa [specified] using hs)
+    simpa [specified] using this
+  · rw [if_neg hlt]
+    have hfl := filterLen_le_specified items e bs P hn hw
+    have h0 : bs.length - specified items = 0 := by omega
+    have hall : items.all (· != Ix.ell) = true := hn
+    simp [convertEllipsis, hall, h0]
+
+/-- **one name per dim of the result**: for an Ellipsis-free tuple index torch accepts on the batch shape with result `R`,
+    the general branch of `_get_names_idx` succeeds and returns exactly `R.shape.length` names -/
+theorem namesTake_length (names : Names) (bs : Shape) (items : List Ix) (R : IndexResult)
+    (hn : noEll items = true) (hlen : names.length = bs.length) (h : index bs items = .ok R) :
+    ∃ l, namesTake names bs.length items = .ok l ∧ l.length = R.shape.length := by
+  obtain ⟨hs, P, hw, hf⟩ := index_inv h
+  obtain ⟨B, hB, hshape, -, -⟩ := finalize_ok hf
+  let k := bs.length - specified items
+  have hc := namesItems_convert_eq bs items _ P hn hs hw
+  have hwc : walk (bs.length - specified items) bs (items ++ List.replicate k slAll) = .ok P := by
+    rw [walk_append_slAll items _ k bs hn (by omega)]; exact hw
+  have hnc : noEll (items ++ List.replicate k slAll) = true := by
+    rw [noEll_append, hn, noEll_replicate_slAll]; rfl
+  obtain ⟨hinv, hcount⟩ := namesLoop_inv (items ++ List.replicate k slAll) NamesSt.init NmInv_init
+  obtain ⟨w1, w2, w3⟩ := namesLoop_walk (items ++ List.replicate k slAll) _ bs P NamesSt.init hnc hwc
+  have hcnt : (namesLoop (items ++ List.replicate k slAll) NamesSt.init).count ≤ bs.length := by
+    rw [hcount, nmConsumedAll_append, nmConsumedAll_replicate_slAll, nmConsumedAll_eq_specified items _ bs P hn hw]
+    simp [NamesSt.init]; omega
+  obtain ⟨l, hl, hll⟩ := lookNames_ok names (namesFinish (namesLoop (items ++ List.replicate k slAll) NamesSt.init))
+    (fun i hi => by have := namesFinish_lt _ hinv i hi; omega)
+  refine ⟨l, by simp only [namesTake, hc, PyIndex.items]; exact hl, ?_⟩
+  rw [hll, namesFinish_length _ hinv, hshape, outShape_length, w2, w3, broadcastAll_length _ B hB]
+  have hsp : specified (items ++ List.replicate k slAll) = bs.length := by
+    rw [specified_append, specified_replicate_slAll]; omega
+  rw [hsp] at w1
+  simp only [NamesSt.init, List.length_nil, Nat.zero_add, Option.isSome_none, Bool.false_or, Nat.zero_max] at w1 ⊢
+  omega
+
+end TdVerif.C03
+
+namespace TdVerif.C03
+open TorchSpec Td
+
+/-- torch's result for a lone boolean mask of rank k: one dim for the selected elements, then the remaining dims -/
+theorem index_mask_rank (bs : Shape) (s : Shape) (d : List Bool) (R : IndexResult)
+    (h : index bs [Ix.mask s d] = .ok R) : R.shape.length + s.length = 1 + bs.length ∧ s.length ≤ bs.length := by
+  obtain ⟨hs, P, hw, hf⟩ := index_inv h
+  obtain ⟨B, hB, hshape, -, -⟩ := finalize_ok hf
+  simp only [walk] at hw
+  split at hw
+  · rename_i hsm
+    simp only [walk, Except.map] at hw
+    cases hw
+    have hlen : s.length ≤ bs.length := by
+      have := congrArg List.length hsm.2; simp at this; omega
+    have hBl := broadcastAll_length _ B hB
+    simp only [advShapes, maskPiece, advShapes_map_full, maxRank] at hBl
+    rw [hshape, outShape_length]
+    simp only [hasAdv, advShapes, maskPiece, advShapes_map_full, streamLen, streamLen_fulls, List.length_drop]
+    simp at hBl ⊢
+    omega
+  · cases hw
+
+/-- **`_get_names_idx` returns one name per dim of the result** (or `None`), for every Ellipsis-free tuple index torch
+    accepts on the batch shape — basic or advanced, adjacent or not, lone masks included -/
+theorem namesIdx_length (names : Names) (bs : Shape) (items : List Ix) (R : IndexResult)
+    (hn : noEll items = true) (hlen : names.length = bs.length) (h : index bs items = .ok R) :
+    ∃ nm, namesIdx (some names) bs.length (.tuple items) = .ok nm ∧ ∀ l, nm = some l → l.length = R.shape.length := by
+  obtain ⟨l, htake, hl⟩ := namesTake_length names bs items R hn hlen h
+  have general : ∃ nm, (match (Except.ok l : Except Err Names) with
+      | .error e => (.error e : Except Err (Option Names))
+      | .ok l => if l.all (· == none) then .ok none else .ok (some l)) = .ok nm ∧
+      ∀ l', nm = some l' → l'.length = R.shape.length := by
+    by_cases hall : l.all (· == none) = true
+    · exact ⟨none, by simp only [hall, if_true], by intro l' h'; cases h'⟩
+    · exact ⟨some l, by simp only [hall, Bool.false_eq_true, if_false], by intro l' h'; cases h'; exact hl⟩
+  simp only [namesIdx, PyIndex.items, htake]
+  cases hb : isBoolean (.tuple items) with
+  | none => exact general
+  | some k =>
+    cases k with
+    | zero => exact general
+    | succ k =>
+      -- a lone mask of rank k + 1
+      have hitems : ∃ s d, items = [Ix.mask s d] ∧ s.length = k + 1 := by
+        match items, hb with
+        | [Ix.mask s d], hb => exact ⟨s, d, rfl, by simpa [isBoolean] using hb⟩
+      obtain ⟨s, d, rfl, hsl⟩ := hitems
+      obtain ⟨hr, hle⟩ := index_mask_rank bs s d R h
+      simp only []
+      by_cases hall : (none :: names.drop (k + 1)).all (· == none) = true
+      · exact ⟨none, by simp only [hall, if_true], by intro l' h'; cases h'⟩
+      · refine ⟨some (none :: names.drop (k + 1)), by simp only [hall, Bool.false_eq_true, if_false], ?_⟩
+        intro l' h'; cases h'
+        simp only [List.length_cons, List.length_drop]; omega
 
 end TdVerif.C03
